@@ -26,6 +26,8 @@ pub mod half_space;
 pub mod integrals;
 mod voronoi_cell;
 mod voronoi_face;
+#[cfg(feature = "verif_hooks")]
+pub mod verif;
 
 /// The dimensionality of the Voronoi tessellation.
 #[derive(
